@@ -17,7 +17,7 @@ RULE = ("4 of 5 runs: battery bench (1-200 charge()/reset() calls on one battery
         "stepwise, noise 0 or sigma in [0.01,3] kW with tape PRNG/zeros/+-6 sigma/alternating, SoC from 0 to exactly full, "
         "pilots 0, 1e-9 .. 10x max); 1 of 5: whole simulations with noisy batteries; non-trivial = sequence crosses the "
         "transition SoC or reaches >= 99.9% SoC; distinct = distinct (battery class, calc, noise?, tape, crossing pattern)")
-PROBES = ["charged_at_another_voltage", "crossed_transition", "reached_99_9", "noise_draw", "extreme_tape", "pilot_above_max", "tiny_pilot",
+PROBES = ["calculation_method_switched", "charged_at_another_voltage", "crossed_transition", "reached_99_9", "noise_draw", "extreme_tape", "pilot_above_max", "tiny_pilot",
           "exactly_full_start", "world_runs", "stepwise_tail_noise", "long_period_call", "pilot_just_off_a_finite_level", "second_life", "refused_reset", "stochastic_network_world",
           "control_loop_runs", "short_form_unplug_of_attached_vehicle", "network_json_roundtrip", "network_deepcopy"]
 FAULT_DIMENSION = "adversarial noise tape (the system's own randomness is the fault surface)"
@@ -210,6 +210,8 @@ def check(sc):
                         % (i, op["frac"], "was refused with ValueError" if op.get("refused") else "was accepted", post[0], cap))
             return
         if rate is None:
+            if op["op"] == "switch_calc":
+                out.probe("calculation_method_switched")
             return
         nonlocal V
         V = op.get("voltage", sc["voltage"])
